@@ -252,8 +252,9 @@ func newC05W() *c05W {
 
 func (h *c05W) close() {
 	if !h.stopped {
-		h.cancel()
 		close(h.reqch)
+		synctest.Wait()
+		h.cancel()
 		h.stopped = true
 	}
 	synctest.Wait()
@@ -491,8 +492,14 @@ func (h *c05W) backoff(id int64) {
 }
 
 func (h *c05W) closeReq() {
-	h.cancel()
+	// reqch is closed first and the callers' shared context is cancelled only
+	// after the loop has returned: dialSync cancels first, which lets the loop
+	// handle some of the resulting context.Canceled dial results before it sees
+	// the closed channel (a scheduler choice; that composition belongs to
+	// dial_sync, which this harness does not drive)
 	close(h.reqch)
+	synctest.Wait()
+	h.cancel()
 	synctest.Wait()
 	h.stopped = true
 	h.line = append(h.line, 5)
